@@ -379,37 +379,70 @@ func successReturns(fn *ssa.Function) []ssa.Instruction {
 	return out
 }
 
-// ErrorsChecked: for every call in fn matching calleeGlob whose last result is
-// an error: a success return of fn must be unreachable when that error is non-nil.
+// callees whose error-typed result is not a failure of the operation under analysis
+var errGateIgnore = []string{"fmt.Errorf", "errors.New", "klog.*", "(klog.Verbose).*", "status.Errorf", "status.Error", "fmt.Fprintf", "fmt.Fprintln", "fmt.Printf", "fmt.Println"}
+
+// ErrorsGate: for every call in fn matching calleeGlob whose last result is
+// an error: once that error is non-nil, no success return of fn may execute
+// (walk from the call's block; the error may be merged through a φ first).
 func (r *Run) ErrorsGate(fn *ssa.Function, key, calleeGlob string, min int) {
 	cs := CallsTo(fn, calleeGlob)
 	n := 0
 	succ := successReturns(fn)
+	errT := types.Universe.Lookup("error").Type()
+outer:
 	for _, c := range cs {
-		v := c.Value()
-		if v == nil {
-			continue
+		name := CalleeOf(c)
+		for _, ig := range errGateIgnore {
+			if glob(ig, name) {
+				continue outer
+			}
 		}
+		if _, isCall := c.(*ssa.Call); !isCall {
+			continue // go / defer
+		}
+		v := c.Value()
 		var ev ssa.Value
 		if tup, ok := v.Type().(*types.Tuple); ok {
+			if tup.Len() == 0 || !types.Identical(tup.At(tup.Len()-1).Type(), errT) {
+				continue
+			}
 			ev = CallResult(c, tup.Len()-1)
 			if ev == nil {
-				r.Fail(key+"@"+CalleeOf(c), r.Where(c), "error result of "+CalleeOf(c)+" is discarded")
+				r.Fail(key+"@"+name, r.Where(c), "error result of "+name+" is discarded")
 				n++
 				continue
 			}
 		} else {
+			if !types.Identical(v.Type(), errT) {
+				continue
+			}
 			ev = v
 		}
-		if !types.Identical(ev.Type(), types.Universe.Lookup("error").Type()) {
-			continue
-		}
 		n++
-		r.MustGuardFrom(fn, c.Block(), key+"@"+CalleeOf(c), "nil?"+r.D.D(ev), "non", succ, "success return of "+FuncName(fn))
+		// the tested value: ev itself or the φ it is merged into
+		tested := ev
+		if !hasNilTest(ev) {
+			for _, ref := range *ev.Referrers() {
+				if ph, ok := ref.(*ssa.Phi); ok && hasNilTest(ph) {
+					tested = ph
+				}
+			}
+		}
+		r.MustGuardFrom(fn, c.Block(), key+"@"+name, "nil?"+r.D.D(tested), "non", succ, "success return of "+FuncName(fn))
 	}
 	if n < min {
 		r.Fail(key, r.FnPos(fn), fmt.Sprintf("expected >= %d error-returning calls to %s in %s, found %d", min, calleeGlob, FuncName(fn), n))
 	}
+}
+
+func hasNilTest(v ssa.Value) bool {
+	for _, ref := range *v.Referrers() {
+		if b, ok := ref.(*ssa.BinOp); ok && (isNilConst(b.X) || isNilConst(b.Y)) {
+			return true
+		}
+	}
+	return false
 }
 
 // ---- failure edges --------------------------------------------------------
@@ -593,3 +626,53 @@ func wantErr(zeroOthers bool) func(r *Run, ret *ssa.Return) (bool, string) {
 func nilAtom(pat string) RuleAtom     { return RuleAtom{Pat: "nil?" + pat} }
 func boolAtom(pat string) RuleAtom    { return RuleAtom{Pat: pat} }
 func ordAtomR(a, b string) RuleAtom   { return RuleAtom{OrdA: a, OrdB: b} }
+
+// ---- struct construction ------------------------------------------------------
+
+// baseAlloc strips loads, field selections and interface boxing to find the
+// local allocation a value lives in.
+func baseAlloc(v ssa.Value) *ssa.Alloc {
+	for i := 0; i < 8 && v != nil; i++ {
+		switch x := v.(type) {
+		case *ssa.Alloc:
+			return x
+		case *ssa.UnOp:
+			v = x.X
+		case *ssa.FieldAddr:
+			v = x.X
+		case *ssa.MakeInterface:
+			v = x.X
+		case *ssa.ChangeType:
+			v = x.X
+		default:
+			return nil
+		}
+	}
+	return nil
+}
+
+// ExpectFields checks the construction of the struct held in the allocation
+// underlying base: for each listed field path, every store to it in fn must
+// have an origin matching the glob, and there must be at least one store.
+func (r *Run) ExpectFields(fn *ssa.Function, key string, base ssa.Value, want map[string]string) {
+	a := baseAlloc(base)
+	if a == nil {
+		r.Fail(key, r.FnPos(fn), "undecided: value "+r.D.D(base)+" is not built in a local allocation")
+		return
+	}
+	name := r.D.allocName(a)
+	for _, f := range keysOf(want) {
+		r.ExpectStores(fn, key+"."+f, "&("+name+"."+f+")", want[f], 1)
+	}
+}
+
+// ValueUnder renders v as it is when σ holds (walk from the entry of fn).
+func (r *Run) ValueUnder(fn *ssa.Function, v ssa.Value, s Sigma) string {
+	r.Valuations++
+	return r.D.DUnder(v, r.D.Walk(fn, s, nil, nil))
+}
+
+// ArgUnder renders argument i of a call as it is when σ holds.
+func (r *Run) ArgUnder(fn *ssa.Function, ci ssa.CallInstruction, i int, s Sigma) string {
+	return r.ValueUnder(fn, CallArgs(ci)[i], s)
+}
